@@ -470,6 +470,32 @@ def rule_unreadable_xml(ctx, rep: Report, rid="Q3"):
             f"{tested}/{len(calls)} results tested", f"{ci.mod.rel}:{gm.lineno}")
 
 
+def _split_facts(test: ast.expr, pol: bool) -> List[Tuple[ast.expr, bool]]:
+    """What is known when `test` evaluated to `pol`: the conjuncts of a true `and`, the disjuncts of a false `or`
+    (each false), the operand of a `not` with the polarity flipped; anything else only as a whole."""
+    if isinstance(test, ast.UnaryOp) and isinstance(test.op, ast.Not):
+        return _split_facts(test.operand, not pol)
+    if isinstance(test, ast.BoolOp) and ((isinstance(test.op, ast.And) and pol) or (isinstance(test.op, ast.Or) and not pol)):
+        out = []
+        for v in test.values:
+            out += _split_facts(v, pol)
+        return out
+    return [(test, pol)]
+
+
+def _bounds_index(test: ast.expr, pol: bool, idx: str, seq: str) -> bool:
+    """Does the fact establish idx < len(seq)?"""
+    if not (isinstance(test, ast.Compare) and len(test.ops) == 1):
+        return False
+    l, op, r = unparse(test.left).replace(" ", ""), test.ops[0], unparse(test.comparators[0]).replace(" ", "")
+    ln = f"len({seq})"
+    if l == idx and r == ln:
+        return (isinstance(op, ast.Lt) and pol) or (isinstance(op, ast.GtE) and not pol)
+    if l == ln and r == idx:
+        return (isinstance(op, ast.Gt) and pol) or (isinstance(op, ast.LtE) and not pol)
+    return False
+
+
 def rule_overload_counter(ctx, rep: Report, rid="Q4"):
     prog = ctx.prog
     ci = prog.cls("XMLDocParser")
@@ -487,10 +513,14 @@ def rule_overload_counter(ctx, rep: Report, rid="Q4"):
         while p is not None and p is not fn:
             q = parent(p)
             if isinstance(q, ast.IfExp) and q.body is p:
-                inline.append(unparse(q.test).replace(" ", ""))
+                inline.append(unparse(q.test))
             p = q
-        allg = [t.replace(" ", "") for t, pol in guards_of(s, fn, include_exits=True)] + inline
-        bound = any(idx in g and f"len({seq})" in g for g in allg)
+        facts = []
+        for t, pol in guards_of(s, fn, include_exits=True):
+            facts += _split_facts(ast.parse(t, mode="eval").body, pol)
+        for t in inline:
+            facts += _split_facts(ast.parse(t, mode="eval").body, True)
+        bound = any(_bounds_index(f_, pol, idx, seq) for f_, pol in facts)
         # or the index is reduced modulo / min'ed where it is computed
         det = prog.method("XMLDocParser", "determine_documenting_index")
         clamp = any(isinstance(c, ast.Call) and unparse(c.func) == "min" for c in ast.walk(det)) or \
@@ -735,7 +765,8 @@ def rule_filter_polarities(ctx, rep: Report, rid="Q5"):
                 has_default_counts = None
                 if counted is not None:
                     yes, no = counted
-                    has_default_counts = (yes > no) if isinstance(x.ops[0], ast.IsNot) else (no > yes)
+                    # the count is a number of parameters: a parameter with a default counts 1, one without counts 0
+                    has_default_counts = ((yes, no) == (1, 0)) if isinstance(x.ops[0], ast.IsNot) else ((yes, no) == (0, 1))
                 opt_tests.append((x, has_default_counts))
     rep.add(rid, "arity:a parameter counts as optional exactly when it has a <defval>", bool(opt_tests) and all(h is True for _, h in opt_tests),
             f"{[(unparse(x), h) for x, h in opt_tests]}: with the test inverted the *required* parameters are subtracted, the arity filter keeps "
@@ -769,7 +800,173 @@ def rule_filter_polarities(ctx, rep: Report, rid="Q5"):
     init0 = [st for st in walk_no_nested(det) if isinstance(st, ast.Assign) and isinstance(st.targets[0], ast.Name) and isinstance(st.value, ast.Constant)
              and not isinstance(st.value.value, str)]
     start_ok = all(st.value.value == 0 for st in init0) or not init0
+    # the counter is engaged as soon as two candidates are indistinguishable: a guard on the number of candidates must hold for 2
+    dps = func_params(det)
+    for st in walk_no_nested(det):
+        if isinstance(st, ast.If) and any(s_ in ast.walk(st) for s_ in stores):
+            for cmp_ in [c for c in ast.walk(st.test) if isinstance(c, ast.Compare) and len(c.ops) == 1]:
+                l_, r_ = cmp_.left, cmp_.comparators[0]
+                is_len = lambda e: isinstance(e, ast.Call) and unparse(e.func) == "len" and e.args and isinstance(e.args[0], ast.Name) and e.args[0].id in dps
+                if is_len(l_) and isinstance(r_, ast.Constant) and isinstance(r_.value, int):
+                    a_, b_ = 2, r_.value
+                elif is_len(r_) and isinstance(l_, ast.Constant) and isinstance(l_.value, int):
+                    a_, b_ = l_.value, 2
+                else:
+                    continue
+                op_ = cmp_.ops[0]
+                holds = {ast.Gt: a_ > b_, ast.GtE: a_ >= b_, ast.Lt: a_ < b_, ast.LtE: a_ <= b_, ast.Eq: a_ == b_, ast.NotEq: a_ != b_}.get(type(op_))
+                if holds is None:
+                    continue
+                pol_ok = holds if any(s_ in [y for b in st.body for y in ast.walk(b)] for s_ in stores) else not holds
+                rep.add(rid, "overload counter:engaged for two indistinguishable candidates", pol_ok,
+                        f"`{unparse(cmp_)}` guards the counter and is false for two candidates: both requests for a pair of overloads with the "
+                        f"same parameter names get overload 0 - the second binding carries the first one's documentation", f"{ci.mod.rel}:{st.lineno}")
     rets = [r.value for r in walk_no_nested(det) if isinstance(r, ast.Return) and r.value is not None]
     rep.add(rid, "overload counter:first request -> 0 (remembered as 0), each further request -> +1", first_zero and step_one and start_ok and bool(rets),
             f"stores {[unparse(st)[:50] for st in stores]}; initial index {[unparse(st) for st in init0]}: any other start or step skips an overload or "
             f"serves one twice", f"{ci.mod.rel}:{det.lineno}")
+
+
+def rule_names_confirmed(ctx, rep: Report, rid="Q5"):
+    """A candidate member survives the name filter only if *every* requested argument name was compared equal to the
+    candidate's parameter name.  In the loop over the requested names, every path through the body either marks the
+    candidate as eliminated (a flag set to a constant, `break`, `return`) or passes the false side of
+    `arg != param.text` / the true side of `arg == param.text`.  A path that falls through without either (a parameter
+    whose name could not be found and is silently skipped) lets a member with different parameters be documented."""
+    prog = ctx.prog
+    ci = prog.cls("XMLDocParser")
+    ff = prog.method("XMLDocParser", "filter_member_defs")
+    scopes = [ff] + [h[1] for c in ast.walk(ff) if isinstance(c, ast.Call) and isinstance(c.func, ast.Attribute) and unparse(c.func.value) == "self"
+                     for h in [prog.find_method(ci, c.func.attr)] if h is not None]
+    found = 0
+    for f_ in scopes:
+        ps = set(func_params(f_))
+        for loop in [x for x in ast.walk(f_) if isinstance(x, ast.For)]:
+            it = loop.iter
+            if isinstance(it, ast.Call) and unparse(it.func) in ("enumerate", "zip") and it.args:
+                srcs = [a for a in it.args]
+            else:
+                srcs = [it]
+            if not any(isinstance(a, ast.Name) and a.id in ps and "arg" in a.id for a in srcs):
+                continue
+            tnames = {x.id for x in ast.walk(loop.target) if isinstance(x, ast.Name)}
+            cmps = [c for c in ast.walk(loop) if isinstance(c, ast.Compare) and len(c.ops) == 1 and isinstance(c.ops[0], (ast.Eq, ast.NotEq))
+                    and any(isinstance(s_, ast.Name) and s_.id in tnames for s_ in (c.left, c.comparators[0]))]
+            if not cmps:
+                continue
+            found += 1
+            keys = {unparse(c.left) + "|" + unparse(c.comparators[0]) for c in cmps}
+            bad: List[int] = []
+
+            def walk(stmts, confirmed, nxt):
+                """nxt: continuation (list of statement lists) to run after `stmts`."""
+                for i, st in enumerate(stmts):
+                    if isinstance(st, ast.If):
+                        rest = [stmts[i + 1:]] + nxt
+                        for pol, blk in ((True, st.body), (False, st.orelse)):
+                            c2 = confirmed
+                            for t, p_ in _split_facts(st.test, pol):
+                                if isinstance(t, ast.Compare) and len(t.ops) == 1 and unparse(t.left) + "|" + unparse(t.comparators[0]) in keys:
+                                    if (isinstance(t.ops[0], ast.Eq) and p_) or (isinstance(t.ops[0], ast.NotEq) and not p_):
+                                        c2 = True
+                            walk(blk, c2, rest)
+                        return
+                    if isinstance(st, (ast.Break, ast.Return, ast.Raise)):
+                        return
+                    if isinstance(st, ast.Assign) and isinstance(st.value, ast.Constant) and isinstance(st.value.value, bool) \
+                            and all(isinstance(t, ast.Name) for t in st.targets):
+                        return  # the candidate is marked: eliminated on this path
+                    if isinstance(st, ast.Continue):
+                        if not confirmed:
+                            bad.append(st.lineno)
+                        return
+                if nxt:
+                    walk(nxt[0], confirmed, nxt[1:])
+                elif not confirmed:
+                    bad.append(stmts[-1].lineno if stmts else loop.lineno)
+            walk(loop.body, False, [])
+            rep.add(rid, f"names:{f_.name}:every path through the name loop compares the name or eliminates the candidate", not bad,
+                    f"a path through the loop body (ending at line {sorted(set(bad))}) neither establishes `{sorted(keys)[0].replace('|', ' == ')}` nor "
+                    f"eliminates the candidate: a member whose parameter carries no name is accepted for any requested name and its text is "
+                    f"attached to another overload's binding", f"{ci.mod.rel}:{loop.lineno}")
+    rep.add(rid, "names:name loops analysed", True, f"{found}", "", nontrivial=False)
+
+
+def rule_extracted_elements_used(ctx, rep: Report, rid="Q7"):
+    """Everything the formatter looks up in a member definition ends up in the text: each local bound to a
+    `.find(...)` / `.findall(...)` result (or to the result of a formatting helper) in get_formatted_docstring and the
+    helpers it calls reaches, through data or control dependence, the value the function returns.  (A brief
+    description, a parameter list or a return section that is looked up and then dropped is documentation silently
+    lost.)"""
+    prog = ctx.prog
+    ci = prog.cls("XMLDocParser")
+    top = prog.method("XMLDocParser", "get_formatted_docstring")
+    fns, work = [], [top]
+    while work:
+        f_ = work.pop()
+        if f_ in fns:
+            continue
+        fns.append(f_)
+        for c in ast.walk(f_):
+            if isinstance(c, ast.Call) and isinstance(c.func, ast.Attribute) and unparse(c.func.value) == "self":
+                h = prog.find_method(ci, c.func.attr)
+                if h is not None and h[1].name != "print_if_verbose":
+                    work.append(h[1])
+    helper_names = {f_.name for f_ in fns}
+
+    def names(e):
+        return {x.id for x in ast.walk(e) if isinstance(x, ast.Name) and isinstance(x.ctx, ast.Load)}
+    total = 0
+    for fn in fns:
+        rets = [r.value for r in walk_no_nested(fn) if isinstance(r, ast.Return) and r.value is not None]
+        outs = {x.id for r in rets for x in ast.walk(r) if isinstance(x, ast.Name)}
+        deps: Dict[str, Set[str]] = {}
+        for st in walk_no_nested(fn):
+            tg = None
+            if isinstance(st, ast.AugAssign) and isinstance(st.target, ast.Name):
+                tg, val = [st.target.id], st.value
+            elif isinstance(st, ast.Assign):
+                tg, val = [x.id for t in st.targets for x in ast.walk(t) if isinstance(x, ast.Name)], st.value
+            elif isinstance(st, ast.For):
+                tg, val = [x.id for x in ast.walk(st.target) if isinstance(x, ast.Name)], st.iter
+            elif isinstance(st, ast.Expr) and isinstance(st.value, ast.Call) and isinstance(st.value.func, ast.Attribute) \
+                    and isinstance(st.value.func.value, ast.Name) and st.value.func.attr in ("append", "extend", "insert", "update", "add"):
+                tg, val = [st.value.func.value.id], st.value
+            elif isinstance(st, ast.Return) and st.value is not None:
+                tg, val = ["<return>"], st.value
+            if not tg:
+                continue
+            d = set(names(val))
+            p_ = parent(st)
+            while p_ is not None and p_ is not fn:
+                if isinstance(p_, (ast.If, ast.While)):
+                    d |= names(p_.test)
+                elif isinstance(p_, ast.For):
+                    d |= names(p_.iter) | {x.id for x in ast.walk(p_.target) if isinstance(x, ast.Name)}
+                p_ = parent(p_)
+            for t in tg:
+                deps.setdefault(t, set()).update(d)
+        reach = {"<return>"}
+        wl = ["<return>"]
+        while wl:
+            v = wl.pop()
+            for d in deps.get(v, ()):
+                if d not in reach:
+                    reach.add(d)
+                    wl.append(d)
+        for st in walk_no_nested(fn):
+            if isinstance(st, ast.Assign) and len(st.targets) == 1 and isinstance(st.targets[0], ast.Name):
+                calls = [c for c in ast.walk(st.value) if isinstance(c, ast.Call) and isinstance(c.func, ast.Attribute) and c.args
+                         and ((c.func.attr in ("find", "findall") and isinstance(c.args[0], ast.Constant))
+                              or (unparse(c.func.value) == "self" and c.func.attr in helper_names))]
+                if not calls:
+                    continue
+                c = calls[0]
+                what = c.args[0].value if isinstance(c.args[0], ast.Constant) else f"self.{c.func.attr}(...)"
+                var = st.targets[0].id
+                total += 1
+                rep.add(rid, f"formatter:{fn.name}:the element found by `{what}` reaches the returned text", var in reach,
+                        f"`{var}` (line {st.lineno}) is looked up but nothing {fn.name} returns depends on it: that part of the "
+                        f"member's documentation never appears in the binding", f"{ci.mod.rel}:{st.lineno}", nontrivial=False)
+    if total < 4:
+        raise AnalysisError(f"{rep.prop}/{rid}: only {total} element look-ups found in get_formatted_docstring and its helpers")
